@@ -345,6 +345,23 @@ def nary(sk, *xs):
                 else:
                     if not isinstance(vals[f], Payload) or vals[f].value != 0:
                         return fail("absent side is not a default box")
+    # the lazy result can be traversed again with the same outcome (no state left over from the first traversal)
+    try:
+        got2 = [(c, pv(p)) for c, p in z]
+    except AssertionError:
+        return fail("second traversal of the same %s result raised" % kind)
+    if len(got2) != len(got):
+        return fail("second traversal of the same %s result yields %d elements, the first %d" % (kind, len(got2), len(got)))
+    for n in range(len(got)):
+        if got2[n][0] != got[n][0]:
+            return fail("second traversal: coordinate differs")
+        v1 = got[n][1][1:] if kind == "union" else got[n][1]
+        v2 = got2[n][1][1:] if kind == "union" else got2[n][1]
+        for f in range(k):
+            if exp[n][1][f] is not None and v1[f] is not v2[f]:
+                return fail("second traversal delivers a different payload object for a present operand")
+            if pv(v1[f]) != pv(v2[f]):
+                return fail("second traversal delivers a different value")
     for f in range(k):
         if raw(fs[f]) != snaps[f]:
             return fail("operand %d changed" % f)
